@@ -148,7 +148,8 @@ func (t *Tree) parseOuterExpr(expr Expr) (Expr, error) {
 			var resultExpr Expr
 			switch n := nx.(type) {
 			case *NameExpr:
-				resultExpr = NewFilterExpr(n.Name, []Expr{expr}, nt.Pos)
+				// (Positioned at the filter's name, as it is with arguments.)
+				resultExpr = NewFilterExpr(n.Name, []Expr{expr}, n.Pos)
 
 			case *FuncExpr:
 				n.Args = append([]Expr{expr}, n.Args...)
